@@ -26,12 +26,14 @@ def main(tier_):
     for a in spec["args"]:
         c = a["c"]
         for p1 in (["argcase_new", "a", "f"] if c["cls"] in ("badfd",) else (["argcase_new", "a", ".", "a/../a/."] if c["cls"] == "badmode" else ["argcase_new"])):
-            call = dict(op="capi_arg", api="c", f=c["f"], cls=c["cls"], val=c["val"], which=c["which"], mode=c.get("mode", ""), p1=p1)
+            call = dict(op="capi_arg", api="c", f=c["f"], cls=c["cls"], val=c["val"], hi=c.get("hi", 0), which=c["which"], mode=c.get("mode", ""), p1=p1)
             if c["f"].startswith("proc_"):
-                call["p1"] = "status"
+                # a path that WOULD work under the base that the lower half alone spells
+                root_lo = c["val"] == 1342308351
+                call["p1"] = ("self" if root_lo else "cwd") if c["f"] == "proc_readlink" else ("uptime" if root_lo else "status")
             if c["f"] == "open_root" and c["cls"] != "nullpath":
                 continue
-            cases.append(dict(id="arg|%s|%s|%s|%s|%s|%s" % (c["f"], c["cls"], c["val"], c["which"], c.get("mode", ""), p1), tree=TREE, feat={}, trace=False, calls=[call],
+            cases.append(dict(id="arg|%s|%s|%s:%s|%s|%s|%s" % (c["f"], c["cls"], c.get("hi", 0), c["val"], c["which"], c.get("mode", ""), p1), tree=TREE, feat={}, trace=False, calls=[call],
                               meta=dict(kind="arg", c=c, e=a["e"], p1=p1)))
     for cc in spec["copy"]:
         c = cc["c"]
@@ -87,8 +89,8 @@ def main(tier_):
             if not x.get("buf_untouched", True):
                 problems.append("caller buffer written although the call failed validation")
             for p in problems:
-                v.violation(dict(check="cboundary-arg", f=cc["f"], cls=cc["cls"], val=cc["val"], which=cc["which"], mode=cc.get("mode"), what=p.split(" (")[0][:40]),
-                            "C17: pathrs_%s with %s (%s): %s" % (cc["f"], cc["cls"], cc["val"] if cc["cls"] in ("badfd", "badbase") else (cc.get("mode") or "path #%s" % cc["which"]), p), c)
+                v.violation(dict(check="cboundary-arg", f=cc["f"], cls=cc["cls"], val=cc["val"], hi=cc.get("hi", 0), which=cc["which"], mode=cc.get("mode"), what=p.split(" (")[0][:40]),
+                            "C17: pathrs_%s with %s (%s): %s" % (cc["f"], cc["cls"], ("%s (upper half %s)" % (cc["val"], cc.get("hi", 0)) if cc.get("hi") else cc["val"]) if cc["cls"] in ("badfd", "badbase") else (cc.get("mode") or "path #%s" % cc["which"]), p), c)
             if len(samples) < 3:
                 samples.append(dict(case=c["id"], ret=x.get("ret"), errno=x.get("errno"), msg=(x.get("msg") or "")[:80]))
         elif m["kind"] == "copy":
@@ -121,7 +123,7 @@ def main(tier_):
             if x["ret"] != proc_len or not x.get("tail_untouched", True) or not x.get("canary_ok", True) or (B >= 0 and len(x.get("copied", "")) != min(proc_len, B)):
                 v.violation(dict(check="cboundary-copy-proc", B=B), "C17: pathrs_proc_readlink copy contract broken for buffer %s: %s" % (B, json.dumps(x)[:200]), c)
     rc = v.finish()
-    nontriv = len({(c["meta"]["c"].get("f"), c["meta"]["c"].get("cls"), c["meta"]["c"].get("val"), c["meta"]["c"].get("L"), c["meta"]["c"].get("B")) for c in cases})
+    nontriv = len({(c["meta"]["c"].get("f"), c["meta"]["c"].get("cls"), c["meta"]["c"].get("val"), c["meta"]["c"].get("hi"), c["meta"]["c"].get("L"), c["meta"]["c"].get("B")) for c in cases})
     cov = dict(states=max(tlc["distinct"], 1), transitions=max(tlc["states"], 1), traces_validated_against_impl=stats["cases"], samples=samples, evaluations=len(cases), distinct_nontrivial=nontriv,
                rule="TLC enumerates ArgCases (function x class x value) and CopyCases (L x B incl. NULL); every case is executed; all are non-trivial (each is an invalid argument or a distinct (L,B) pair)",
                exhaustive=True, arg_cases=len(spec["args"]), copy_cases=len(spec["copy"]), build_s=round(build_s, 1))
